@@ -29,6 +29,9 @@ def f(x):
 
 # ------------------------------------------------------------------------------------------------ generators
 
+_STR_MODE = "mixed"
+
+
 def rand_item(rng, ity, universe):
     v = rng.randrange(universe)
     if ity == "i":
@@ -37,7 +40,12 @@ def rand_item(rng, ity, universe):
         return str(v - universe // 3)
     if rng.random() < 0.06:
         return "-"                                   # empty string
-    n = rng.choice([1, 1, 2, 3, 5, 9, 17]) if rng.random() < 0.3 else 2
+    # (lengths above 15 bytes leave libstdc++'s small-string buffer: such items own heap memory, so an item that is constructed by a
+    #  reader and never destroyed on a rejection path shows up in the allocation balance)
+    if _STR_MODE == "long":
+        n = rng.choice([17, 20, 24, 40])
+        return "".join("%02x" % ((v * 7 + i * 13) % 255 + 1) for i in range(n - 2)) + "%02x%02x" % (v % 251 + 1, v // 251 + 1)
+    n = rng.choice([1, 1, 2, 3, 5, 9, 17, 24, 40]) if rng.random() < 0.45 else 2
     return "".join("%02x" % ((v * 7 + i * 13) % 255 + 1) for i in range(n)) if n != 2 else "%02x%02x" % (v % 251 + 1, v // 251 + 1)
 
 
@@ -54,7 +62,9 @@ class Hist:
     """builder of one history: allocates slots, records op lines"""
 
     def __init__(self, rng, zerofill=False):
+        global _STR_MODE
         self.rng, self.ops, self.n = rng, [], 0
+        _STR_MODE = rng.choice(["mixed", "long"])      # per history: in "long" histories EVERY string item owns heap memory
         if zerofill:
             # VarOpt union only: the pinned reader leaves the gadget's `marks_` beyond h uninitialised and get_result() of a
             # restored union then loads invalid bools (UBSan).  A quarter of the C09 union histories run without this switch
